@@ -18,6 +18,7 @@ import (
 	"os"
 	"path/filepath"
 	"regexp"
+	"runtime"
 	"runtime/pprof"
 	"sort"
 	"strconv"
@@ -314,7 +315,7 @@ type caseC struct {
 	Cwd     string   `json:"cwd"`
 
 	Allowed  bool   `json:"oracle_allowed"`
-	Observed string `json:"observed,omitempty"`
+	named int // canary named by the cleaned location when it is allowed
 }
 
 type obsT struct {
@@ -350,6 +351,8 @@ func (o *obsT) String() string {
 
 var canaryRe = regexp.MustCompile(`canary-(\d+)\.test`)
 
+var posRe = regexp.MustCompile(`@-?\d+`)
+
 type env struct {
 	c      *lib.Ctx
 	root   string
@@ -371,6 +374,9 @@ func (t countingRT) RoundTrip(r *http.Request) (*http.Response, error) {
 func newEnv(c *lib.Ctx) (e *env, err error) {
 	log.SetLevel(log.ERROR)
 	log.SetOutput(io.Discard)
+	// Every engine rebuild forces a GC cycle (debug.FreeOSMemory in
+	// initFiltering); with one P that cycle needs no cross-thread handshakes.
+	runtime.GOMAXPROCS(1)
 	vtime.SetVirtual(time.Date(2025, 3, 1, 12, 0, 0, 0, time.UTC))
 	e = &env{c: c, root: filepath.Join(c.TmpDir, "t")}
 	for i, f := range canaryFiles {
@@ -615,11 +621,17 @@ func (e *env) judge(cs *caseC, o *obsT) (key, desc string) {
 	}
 	al := allowed(pats, loc)
 	cs.Allowed = al
-	wl := ""
-	if cs.White {
-		wl = ":allowlist"
+	want := 0
+	cl := filepath.Clean(loc)
+	for i, f := range canaryFiles {
+		if al && filepath.Join(e.root, f) == cl {
+			want = i + 1
+		}
 	}
-	site := cs.Entry + wl + ":" + cs.Class
+	cs.named = want
+	// The key names the entry point and the kinds of departure from the plain
+	// spelling (without positions); registry and pattern list are in the case.
+	site := cs.Entry + ":" + posRe.ReplaceAllString(cs.Class, "")
 	if o.Panic != "" {
 		return "panic:" + site, fmt.Sprintf("the entry point panics: %s", o.Panic)
 	}
@@ -646,13 +658,6 @@ func (e *env) judge(cs *caseC, o *obsT) (key, desc string) {
 		}
 		return "file-outside-patterns-read:" + site, "a local file OUTSIDE the safe patterns was read: " + why
 	}
-	want := 0
-	cl := filepath.Clean(loc)
-	for i, f := range canaryFiles {
-		if filepath.Join(e.root, f) == cl {
-			want = i + 1
-		}
-	}
 	for n := range o.Canaries {
 		if n != want {
 			return "other-file-than-named-read:" + site, fmt.Sprintf("the location is allowed and names %s (canary %d) but content of another file shows up", e.unsub(cl), want)
@@ -673,9 +678,8 @@ func (e *env) check(cs caseC) {
 			c.EngineError(fmt.Sprintf("nondeterministic observation for %s: %s vs %s", jsonStr(cs), o, o2))
 			return
 		}
-		cs.Observed = e.unsub(o.String())
-		c.Violation(key, fmt.Sprintf("%s\nobserved: %s\ncase: %s\n(tree: every file <root>/%v holds ||canary-<i>.test^; cwd=<root>/%s; %s = tree root)",
-			desc, cs.Observed, jsonStr(cs), canaryFiles, cwdRel, rootVar), cs)
+		c.Violation(key, fmt.Sprintf("%s\nobserved: %s\ncase: %s\n(%s = tree root; file number i of <root>/%v holds ||canary-<i>.test^; process cwd=<root>/%s)",
+			desc, e.unsub(o.String()), jsonStr(cs), rootVar, canaryFiles, cwdRel), cs)
 		return
 	}
 	read := len(o.Canaries) > 0
@@ -693,7 +697,7 @@ func (e *env) check(cs caseC) {
 		// A spelling aimed at an existing canary file that must be refused.
 		c.Count("refused_spellings_of_existing_files", 1)
 		c.Distinct("nontrivial", jsonStr(caseC{PatName: cs.PatName, Loc: cs.Loc, Entry: cs.Entry, White: cs.White}))
-	case cs.Allowed && isCanary:
+	case cs.Allowed && cs.named != 0:
 		c.Count("allowed_but_not_read", 1)
 		if c.Distinct("allowed_not_read_classes", cs.Entry+"|"+cs.Class) {
 			c.Sample(map[string]any{"allowed_but_not_read": cs, "observed": e.unsub(o.String())})
@@ -773,7 +777,6 @@ func replay(c *lib.Ctx, raw json.RawMessage) string {
 	if cs.Entry == "" {
 		return "case is not replayable (tree-integrity violation); re-run the check"
 	}
-	cs.Observed = ""
 	o := e.exec(&cs)
 	key, desc := e.judge(&cs, o)
 	if key != "" {
